@@ -65,6 +65,35 @@ Definition straddle (v : view) (q : Q) : Z :=
 (* the resolution of the digest at q: half the straddling weights, as a fraction of the total *)
 Definition resolution (v : view) (q : Q) : Q := inject_Z (straddle v q) / (2 * tq v).
 
+(* ---- the same for views whose centroids may share a mean (blocks of equal means) ---- *)
+(* number of means < y, and number of means <= y (partition points of the sorted list) *)
+Definition pl (cs : list centroid) (y : Q) : nat := part_point (fun c => Qltb (c_mean c) y) cs.
+Definition pu (cs : list centroid) (y : Q) : nat := part_point (fun c => negb (Qltb y (c_mean c))) cs.
+(* weight of the centroids whose mean equals y: those with mean <= y minus those with mean < y *)
+Definition blockw (cs : list centroid) (y : Q) : Z := (Wbefore cs (pu cs y) - Wbefore cs (pl cs y))%Z.
+
+(* indices of the two centroids whose centres straddle the target weight: (0,0) before the first
+   centre, (n-1,n-1) from the last centre on, (i,i+1) in between *)
+Fixpoint straddle_idx_from (cs : list centroid) (i : nat) (acc2 : Z) (weight : Q) : nat * nat :=
+  match cs with
+  | ci :: ((cj :: _) as r) =>
+      let next2 := (acc2 + c_wz ci + c_wz cj)%Z in
+      if Qltb weight (inject_Z next2 / 2) then (i, S i) else straddle_idx_from r (S i) next2 weight
+  | _ => (i, i)
+  end.
+Definition straddle_idx (v : view) (q : Q) : nat * nat :=
+  match v_cs v with
+  | [] => (0%nat, 0%nat)
+  | c0 :: _ => let weight := q * tq v in
+               if Qltb weight (c_w c0 / 2) then (0%nat, 0%nat) else straddle_idx_from (v_cs v) 0 (c_wz c0) weight
+  end.
+(* the weight of ALL centroids sharing a mean with one of the two straddling centroids, as a fraction of
+   the total (for pairwise distinct means this is twice [resolution]) *)
+Definition block_resolution (v : view) (q : Q) : Q :=
+  let ma := c_mean (nthc (v_cs v) (fst (straddle_idx v q))) in
+  let mb := c_mean (nthc (v_cs v) (snd (straddle_idx v q))) in
+  inject_Z (blockw (v_cs v) ma + (if Qeq_bool ma mb then 0 else blockw (v_cs v) mb)) / tq v.
+
 (* ---------------- in-process histories ---------------- *)
 Inductive hist : Type :=
 | HNew (k : Z)
